@@ -294,8 +294,11 @@ class C16:
             indexer = t[1][1] if t[1][0] == "sub" else None
             ok_idx = t[1][0] == "sub" and entry_ok(loops[0].id, t[1][2], t[2]) and loops[0].id in idx_stores[0].loops \
                 and all(c[0] == "inloop" for c in conjuncts(idx_stores[0].live))
-            init_ok = indexer is not None and indexer[0] == "comp" and indexer[1] == "list" and indexer[2] == SL and len(indexer[3]) == 1 \
-                and indexer[3][0][1] == RNG and not indexer[3][0][2]
+            from sa import seqview
+            # one full slice per axis, however the list is spelled ([slice(None) for _ in range(ndim)], [slice(None)] * ndim)
+            init_ok = indexer is not None and seqview.item(indexer, ("param", "__i__")) == SL \
+                and seqview.length(indexer) in (("attr", arr, "ndim"), ("call", ("builtin", "len"), (("attr", arr, "shape"),), ()),
+                                                ("call", ("builtin", "len"), (("attr", arr, "dims"),), ()))
             index_term = ("call", ("builtin", "tuple"), (indexer,), ()) if indexer is not None else None
         elif q is not None and not idx_stores and len(final) == 1:
             # form B: {axis: index for each query item} looked up per axis, full slice elsewhere
